@@ -397,7 +397,7 @@ func (e *specEnv) quant(n *EQuant) sv {
 		kw = "forall"
 	}
 	if n.Lo == nil {
-		ty, err := u.eng.ResolveType(e.pkgPath, n.Type)
+		ty, err := e.resolveType(n.Type)
 		if err != nil {
 			sfail("%v", err)
 		}
@@ -500,6 +500,7 @@ func (e *specEnv) indexExpr(n *EIndex) sv {
 		}
 	case *types.Map:
 		k := e.term(e.eval(n.I, tt.Key()), tt.Key())
+		e.noteKey(tt.Key(), k)
 		return sv{Val: Val{t: fmt.Sprintf("(select (select %s %s) %s)", e.st.get(u, u.keyMapVal(tt)), x.t, k), typ: tt.Elem()}}
 	case *types.Pointer:
 		if at, ok := tt.Elem().Underlying().(*types.Array); ok {
@@ -961,4 +962,52 @@ func (fr *frame) lookupName(name string, at *ssa.BasicBlock, inclusive bool, phi
 		}
 	}
 	return Val{}, false
+}
+
+// resolveType: like Engine.ResolveType, but a type parameter name of the generic function the
+// contract belongs to denotes the type argument of the instance at hand.
+func (e *specEnv) resolveType(expr string) (types.Type, error) {
+	fn := e.callee
+	if fn == nil && e.fr != nil {
+		fn = e.fr.fn
+	}
+	for f := fn; f != nil; f = f.Parent() {
+		if o := f.Origin(); o != nil {
+			tps, targs := o.TypeParams(), f.TypeArgs()
+			for i := 0; i < tps.Len() && i < len(targs); i++ {
+				if tps.At(i).Obj().Name() == strings.TrimSpace(expr) {
+					return targs[i], nil
+				}
+			}
+		}
+	}
+	t, err := e.u.eng.ResolveType(e.pkgPath, expr)
+	if err != nil {
+		return t, err
+	}
+	// a generic named type mentioned without type arguments inside a contract of a generic
+	// function: instantiated with the type arguments of the instance at hand
+	if n, ok := t.(*types.Named); ok && n.TypeParams().Len() > 0 && n.TypeArgs().Len() == 0 {
+		for f := fn; f != nil; f = f.Parent() {
+			if targs := f.TypeArgs(); len(targs) == n.TypeParams().Len() {
+				if it, err := types.Instantiate(nil, n, targs, false); err == nil {
+					return it, nil
+				}
+			}
+		}
+	}
+	return t, nil
+}
+
+func (e *specEnv) noteKey(t types.Type, term string) {
+	u := e.u
+	if !u.collectKeys || strings.Contains(term, "q!") {
+		return
+	}
+	for _, c := range u.keyCands {
+		if c.term == term {
+			return
+		}
+	}
+	u.keyCands = append(u.keyCands, keyCand{t, term})
 }
